@@ -2,3 +2,4 @@ import Xrfmv.Props.C08
 #print axioms Xrfmv.Props.C08.node_routing_agrees
 #print axioms Xrfmv.Props.C08.train_route_agree
 #print axioms Xrfmv.Props.C08.val_rule_eq_predict_rule
+#print axioms Xrfmv.Props.C08.train_route_agree_unconditional
